@@ -203,10 +203,23 @@ def fmt(t):
     return "(%d:%d)%s:%s/%s/%s" % (t["line"], t["column"], t["type"], kw, t["text"] or "", ",".join("%d:%s" % it for it in t["items"]))
 
 
+_TF = {}
+
+
 def check_listing(text, M, case, golden=None, path=None):
     M.count("listings_compared")
+    # every other listing is printed by one Parser(TokenFormatterBuilder()) reused for the whole shard,
+    # as scripts/generate_tokens.py does for several files
+    reuse = M.counters["listings_compared"] % 2 == 0
+    if reuse:
+        if "p" not in _TF:
+            _TF["p"] = Parser(TokenFormatterBuilder())
+        tfp = _TF["p"]
+        M.count("listings_on_reused_formatter")
+    else:
+        tfp = Parser(TokenFormatterBuilder())
     try:
-        listing = Parser(TokenFormatterBuilder()).parse(TokenScanner.__new__(TokenScanner) if False else text)
+        listing = tfp.parse(text)
         status = "ok"
     except ParserError as e:
         listing, status = None, "rejected"
